@@ -8,6 +8,8 @@ open PytypeModel.Mro
   `pymro <hier>` / `cmro <hier>`→ per class `ok:…` / `err:…` joined by `|`
   `stub <hier>`                 → per class GetBasesInMRO(cls)
   `pylookup <hier> <defs> <nattrs>` / `clookup …` → per class, per attr: definer | `-` | `E`
+  `pysuper <hier> <defs> <sdefs> <nattrs>` / `csuper …` → per class, per attr: `K().s()` with
+      `def s(self): return super().a`: definer | `-` no method | `A` no attribute | `E` no class
 -/
 
 def parseList (s : String) : Option (List Nat) :=
@@ -42,6 +44,15 @@ def showLookups (look : Nat → Nat → Except MroError (Option Nat)) (n nattrs 
       | .ok none => "-"
       | .error _ => "E"))
 
+def showSupers (rd : Nat → Nat → SRes) (n nattrs : Nat) : String :=
+  "|".intercalate ((List.range n).map fun c =>
+    ",".intercalate ((List.range nattrs).map fun a =>
+      match rd c a with
+      | .definer d => toString d
+      | .noMethod => "-"
+      | .noAttr => "A"
+      | .noClass => "E"))
+
 def stepC10 (_ : Unit) (line : String) : Unit × Option String :=
   let out := match line.splitOn " " with
     | ["merge", sg, ss] =>
@@ -72,6 +83,16 @@ def stepC10 (_ : Unit) (line : String) : Unit × Option String :=
       match parseLists h, parseLists d, n.toNat? with
       | some h, some d, some n => showLookups (cLookup h (defsFn d)) h.length n
       | _, _, _ => "bad-op"
+    | ["pysuper", h, d, sd, n] =>
+      match parseLists h, parseLists d, parseLists sd, n.toNat? with
+      | some h, some d, some sd, some n =>
+        showSupers (pySuperRead h (defsFn d) (defsFn sd)) h.length n
+      | _, _, _, _ => "bad-op"
+    | ["csuper", h, d, sd, n] =>
+      match parseLists h, parseLists d, parseLists sd, n.toNat? with
+      | some h, some d, some sd, some n =>
+        showSupers (cSuperRead h (defsFn d) (defsFn sd)) h.length n
+      | _, _, _, _ => "bad-op"
     | _ => "bad-op"
   ((), some out)
 
